@@ -57,6 +57,8 @@ def assertion_tree():
 
 
 def check_case(case, ctx):
+    if case.get('mode') == 'ref':
+        return check_ref(case, ctx)
     tree = ['look', case['kind'], case['sp'], case['match'], case['assertions']]
     o = treecheck.evaluate(tree, case.get('tseed', 0))
     ctx.count(f'outcome:{o.kind}')
@@ -97,6 +99,64 @@ def check_case(case, ctx):
                                        'emitted': o.pattern} if nontrivial else None)
 
 
+# -- references inside lookbehinds ------------------------------------------------------------------------------------------------
+# A backreference is neither optional, nor variably repeated, nor an alternation: by the property's own definition it has a single
+# width (that of its group), so an assertion made of literals and references is accepted, and the whole expression - with the
+# group defined to the left - compiles and behaves like the hand-written regex; an optional / variably repeated reference is refused.
+REF_SHAPES = {
+    'ref': (lambda r: r, lambda R: R, True),
+    'lit_ref': (lambda r: ['cat', 'class', [['lit', 'x', True], r]], lambda R: 'x' + R, True),
+    'ref_lit': (lambda r: ['cat', 'op', [r, ['lit', 'x', True]]], lambda R: R + 'x', True),
+    'twice': (lambda r: ['q', 'exactly', 'class', r, 2, None, True], lambda R: f'(?:{R}){{2}}', True),
+    'group': (lambda r: ['grp', 'class', r, False], lambda R: f'(?:{R})', True),
+    'optional': (lambda r: ['q', 'opt', 'class', r, 0, None, True], None, False),
+    'star': (lambda r: ['q', 'star', 'method', r, 0, None, True], None, False),
+    'range': (lambda r: ['q', 'range', 'class', r, 1, 2, True], None, False),
+}
+
+
+def ref_cases():
+    for name in (None, 'quote'):
+        for shape in sorted(REF_SHAPES):
+            for kind in ('pb', 'npb', 'eb', 'neb'):
+                for sp in ('class', 'method'):
+                    yield {'mode': 'ref', 'name': name, 'shape': shape, 'kind': kind, 'sp': sp}
+
+
+def check_ref(case, ctx):
+    name, kind = case['name'], case['kind']
+    mk, ref_of, fixed = REF_SHAPES[case['shape']]
+    assertion = mk(['bref', name if name else 1])
+    tree = ['cat', 'class', [['cap', 'class', ['lit', 'ab', True], name], ['look', kind, case['sp'], ['lit', 'z', True], [assertion]]]]
+    what = dsl.render(tree)
+    try:
+        p = dsl.build(tree)
+        raised = None
+    except Exception as ex:  # noqa: BLE001
+        if type(ex).__name__ == 'CaseTimeout':
+            raise
+        raised = type(ex).__name__
+    if not fixed:
+        if raised != 'NonFixedWidthPatternException':
+            raise Violation('missing_exception', case, f'{what}: an optional / variably repeated reference in a lookbehind; got {raised or repr(str(p))}')
+        ctx.case(case, True, sample={'expr': what, 'outcome': raised})
+        return
+    if raised:
+        raise Violation('undocumented_use', case, f'{what} raised {raised}: the assertion is a reference (+ literals), which has a single width')
+    R = f'(?P={name})' if name else '\\1'
+    A = ref_of(R)
+    cap = f'(?P<{name}>ab)' if name else '(ab)'
+    want = cap + {'pb': f'(?<={A})z', 'npb': f'(?<!{A})z', 'eb': f'(?<={A})z(?={A})', 'neb': f'(?<!{A})z(?!{A})'}[kind]
+    try:
+        ra, rb = re.compile(str(p), dsl.FLAGS), re.compile(want, dsl.FLAGS)
+    except re.error as ex:
+        raise Violation('not_compilable', case, f'{what} emitted {str(p)!r}: {ex} (hand-written: {want!r})')
+    d = dsl.equivalent(ra, rb, ['ababz', 'abz', 'abxabz', 'ababzab', 'abz ab', 'abxz', 'ababababz', 'abzabab', ''])
+    if d:
+        raise Violation('diff:match', case, f'{what} emitted {str(p)!r}, hand-written {want!r}: {d}')
+    ctx.case(case, True, sample={'expr': what, 'emitted': str(p)})
+
+
 def strategy(spec, ctx):
     match = dsl.tree_strategy([f for f in dsl.ALL_FEATURES if f not in ('anchor',)], max_leaves=2)
     return st.fixed_dictionaries({
@@ -110,8 +170,11 @@ def strategy(spec, ctx):
 
 def shards(tier):
     n = 16 if tier == 'quick' else 64
-    return [{'examples': 1000 if tier == 'quick' else 8000} for _ in range(n)]
+    return [{'examples': 1000 if tier == 'quick' else 8000, 'refs': i == 0} for i in range(n)]
 
 
 def run_shard(spec, ctx):
+    if spec.get('refs'):
+        from pbt.common import run_enumeration
+        run_enumeration(ctx, ref_cases(), check_case, 'numeric / named backreference in 8 assertion shapes x 4 lookbehind kinds x 2 spellings')
     run_hypothesis(ctx, strategy(spec, ctx), check_case, spec['examples'])
